@@ -253,6 +253,8 @@ func replaySeeds(args []string) map[string]int {
 			res["cli"] += 30
 		case "om":
 			res["omc"] += 20
+		case "stallclose":
+			res["cons"] += 3
 		}
 	}
 	return res
